@@ -54,16 +54,24 @@ def AddLiquidity_depositAmt_1 (tokenReserveAmt : Int) (msg_ExactStandardAmt : In
 def AddLiquidity_guard_1 (standardDenom : String) (msg_MaxToken : Coin) : Option (Bool) := do
   some (standardDenom == msg_MaxToken.denom)
 
-/-- rejects when true: `standardReserveAmt.IsZero() || tokenReserveAmt.IsZero() || liquidity.IsZero()` -/
-def AddLiquidity_guard_2 (standardReserveAmt : Int) (tokenReserveAmt : Int) (liquidity : Int) : Option (Bool) := do
-  some (((Int_IsZero standardReserveAmt) || (Int_IsZero tokenReserveAmt)) || (Int_IsZero liquidity))
+/-- rejects when true: `mintLiquidityAmt.LT(msg.MinLiquidity)` -/
+def AddLiquidity_guard_2 (mintLiquidityAmt : Int) (msg_MinLiquidity : Int) : Option (Bool) := do
+  some (Int_LT mintLiquidityAmt msg_MinLiquidity)
 
 /-- rejects when true: `mintLiquidityAmt.LT(msg.MinLiquidity)` -/
 def AddLiquidity_guard_3 (mintLiquidityAmt : Int) (msg_MinLiquidity : Int) : Option (Bool) := do
   some (Int_LT mintLiquidityAmt msg_MinLiquidity)
 
+/-- rejects when true: `standardReserveAmt.IsZero() || tokenReserveAmt.IsZero() || liquidity.IsZero()` -/
+def AddLiquidity_guard_4 (standardReserveAmt : Int) (tokenReserveAmt : Int) (liquidity : Int) : Option (Bool) := do
+  some (((Int_IsZero standardReserveAmt) || (Int_IsZero tokenReserveAmt)) || (Int_IsZero liquidity))
+
+/-- rejects when true: `mintLiquidityAmt.LT(msg.MinLiquidity)` -/
+def AddLiquidity_guard_5 (mintLiquidityAmt : Int) (msg_MinLiquidity : Int) : Option (Bool) := do
+  some (Int_LT mintLiquidityAmt msg_MinLiquidity)
+
 /-- rejects when true: `depositAmt.GT(msg.MaxToken.Amount)` -/
-def AddLiquidity_guard_4 (depositAmt : Int) (msg_MaxToken : Coin) : Option (Bool) := do
+def AddLiquidity_guard_6 (depositAmt : Int) (msg_MaxToken : Coin) : Option (Bool) := do
   some (Int_GT depositAmt msg_MaxToken.amount)
 
 def RemoveLiquidity_irisWithdrawnAmt_1 (msg_WithdrawLiquidity : Coin) (standardReserveAmt : Int) (liquidityReserve : Int) : Option (Int) := do
@@ -119,8 +127,12 @@ def AddUnilateral_mintLptAmt_1 (squareBigInt : Int) (lptBalanceAmt : Int) : Opti
   let t2 ← Int_Sub t1 lptBalanceAmt
   some t2
 
+/-- rejects when true: `msg.ExactToken.Denom != msg.CounterpartyDenom && msg.ExactToken.Denom != k.GetStandardDenom(ctx)` -/
+def AddUnilateral_guard_1 (msg_ExactToken : Coin) (msg_CounterpartyDenom : String) (read_k_GetStandardDenom_ctx : String) : Option (Bool) := do
+  some ((msg_ExactToken.denom != msg_CounterpartyDenom) && (msg_ExactToken.denom != read_k_GetStandardDenom_ctx))
+
 /-- rejects when true: `mintLptAmt.LT(msg.MinLiquidity)` -/
-def AddUnilateral_guard_1 (mintLptAmt : Int) (msg_MinLiquidity : Int) : Option (Bool) := do
+def AddUnilateral_guard_2 (mintLptAmt : Int) (msg_MinLiquidity : Int) : Option (Bool) := do
   some (Int_LT mintLptAmt msg_MinLiquidity)
 
 def RemoveUnilateral_feeNumerator_1 (deltaFeeUnilateral : Dec) : Option (Int) := do
@@ -148,26 +160,30 @@ def RemoveUnilateral_targetTokenAmtAfterFee_1 (targetTokenNumerator : Int) (targ
   let t1 ← Int_Quo targetTokenNumerator targetTokenDenominator
   some t1
 
+/-- rejects when true: `msg.MinToken.Denom != msg.CounterpartyDenom && msg.MinToken.Denom != k.GetStandardDenom(ctx)` -/
+def RemoveUnilateral_guard_1 (msg_MinToken : Coin) (msg_CounterpartyDenom : String) (read_k_GetStandardDenom_ctx : String) : Option (Bool) := do
+  some ((msg_MinToken.denom != msg_CounterpartyDenom) && (msg_MinToken.denom != read_k_GetStandardDenom_ctx))
+
 /-- rejects when true: `lptBalanceAmt.LT(msg.ExactLiquidity)` -/
-def RemoveUnilateral_guard_1 (lptBalanceAmt : Int) (msg_ExactLiquidity : Int) : Option (Bool) := do
+def RemoveUnilateral_guard_2 (lptBalanceAmt : Int) (msg_ExactLiquidity : Int) : Option (Bool) := do
   some (Int_LT lptBalanceAmt msg_ExactLiquidity)
 
 /-- rejects when true: `lptBalanceAmt.Equal(msg.ExactLiquidity)` -/
-def RemoveUnilateral_guard_2 (lptBalanceAmt : Int) (msg_ExactLiquidity : Int) : Option (Bool) := do
+def RemoveUnilateral_guard_3 (lptBalanceAmt : Int) (msg_ExactLiquidity : Int) : Option (Bool) := do
   some (Int_Equal lptBalanceAmt msg_ExactLiquidity)
 
 /-- rejects when true: `targetBalanceAmt.LT(msg.MinToken.Amount)` -/
-def RemoveUnilateral_guard_3 (targetBalanceAmt : Int) (msg_MinToken : Coin) : Option (Bool) := do
+def RemoveUnilateral_guard_4 (targetBalanceAmt : Int) (msg_MinToken : Coin) : Option (Bool) := do
   some (Int_LT targetBalanceAmt msg_MinToken.amount)
 
 /-- rejects when true: `targetTokenAmtAfterFee.LT(msg.MinToken.Amount)` -/
-def RemoveUnilateral_guard_4 (targetTokenAmtAfterFee : Int) (msg_MinToken : Coin) : Option (Bool) := do
+def RemoveUnilateral_guard_5 (targetTokenAmtAfterFee : Int) (msg_MinToken : Coin) : Option (Bool) := do
   some (Int_LT targetTokenAmtAfterFee msg_MinToken.amount)
 
 /-- targets the translator refused, with the reason (must be empty) -/
 def untranslated : List String := []
 
 /-- names of the translated definitions -/
-def translated : List String := ["GetInputPrice", "GetOutputPrice", "AddLiquidity_mintLiquidityAmt_1", "AddLiquidity_mintLiquidityAmt_2", "AddLiquidity_mintLiquidityAmt_3", "AddLiquidity_depositAmt_1", "AddLiquidity_guard_1", "AddLiquidity_guard_2", "AddLiquidity_guard_3", "AddLiquidity_guard_4", "RemoveLiquidity_irisWithdrawnAmt_1", "RemoveLiquidity_tokenWithdrawnAmt_1", "RemoveLiquidity_guard_1", "RemoveLiquidity_guard_2", "RemoveLiquidity_guard_3", "RemoveLiquidity_guard_4", "RemoveLiquidity_guard_5", "AddUnilateral_numerator_1", "AddUnilateral_denominator_1", "AddUnilateral_square_1", "AddUnilateral_mintLptAmt_1", "AddUnilateral_guard_1", "RemoveUnilateral_feeNumerator_1", "RemoveUnilateral_feeDenominator_1", "RemoveUnilateral_targetTokenNumerator_1", "RemoveUnilateral_targetTokenDenominator_1", "RemoveUnilateral_targetTokenAmtAfterFee_1", "RemoveUnilateral_guard_1", "RemoveUnilateral_guard_2", "RemoveUnilateral_guard_3", "RemoveUnilateral_guard_4"]
+def translated : List String := ["GetInputPrice", "GetOutputPrice", "AddLiquidity_mintLiquidityAmt_1", "AddLiquidity_mintLiquidityAmt_2", "AddLiquidity_mintLiquidityAmt_3", "AddLiquidity_depositAmt_1", "AddLiquidity_guard_1", "AddLiquidity_guard_2", "AddLiquidity_guard_3", "AddLiquidity_guard_4", "AddLiquidity_guard_5", "AddLiquidity_guard_6", "RemoveLiquidity_irisWithdrawnAmt_1", "RemoveLiquidity_tokenWithdrawnAmt_1", "RemoveLiquidity_guard_1", "RemoveLiquidity_guard_2", "RemoveLiquidity_guard_3", "RemoveLiquidity_guard_4", "RemoveLiquidity_guard_5", "AddUnilateral_numerator_1", "AddUnilateral_denominator_1", "AddUnilateral_square_1", "AddUnilateral_mintLptAmt_1", "AddUnilateral_guard_1", "AddUnilateral_guard_2", "RemoveUnilateral_feeNumerator_1", "RemoveUnilateral_feeDenominator_1", "RemoveUnilateral_targetTokenNumerator_1", "RemoveUnilateral_targetTokenDenominator_1", "RemoveUnilateral_targetTokenAmtAfterFee_1", "RemoveUnilateral_guard_1", "RemoveUnilateral_guard_2", "RemoveUnilateral_guard_3", "RemoveUnilateral_guard_4", "RemoveUnilateral_guard_5"]
 
 end Irismod.Gen.PureCoinswap
